@@ -382,6 +382,14 @@ impl Engine for NetEngine {
     }
 }
 
+/// Adds the builder-call-order dimension to a case strategy.
+pub fn ordered(s: impl Strategy<Value = NetCase>) -> impl Strategy<Value = NetCase> {
+    (s, 0u8..2).prop_map(|(mut c, o)| {
+        c.builder_order = o;
+        c
+    })
+}
+
 fn servers_strategy() -> impl Strategy<Value = Vec<u8>> {
     proptest::collection::vec(0u8..3, 1..=3)
 }
@@ -409,6 +417,7 @@ pub fn c01_strategy_up(max_reqs: usize, up_weight: u32) -> impl Strategy<Value =
             buf,
             timeout_ms: None,
             shutdown_on_accept: None,
+            builder_order: 0,
         })
     })
 }
@@ -445,6 +454,7 @@ pub fn c07_strategy(max_reqs: usize) -> impl Strategy<Value = NetCase> {
             buf,
             timeout_ms: None,
             shutdown_on_accept: None,
+            builder_order: 0,
         }})
     })
 }
@@ -472,6 +482,7 @@ pub fn c07_burst_strategy(max_reqs: usize) -> impl Strategy<Value = NetCase> {
             buf,
             timeout_ms: None,
             shutdown_on_accept: Some(k),
+            builder_order: 0,
         })
     })
 }
@@ -496,6 +507,7 @@ pub fn c04_e2e_strategy(max_reqs: usize) -> impl Strategy<Value = NetCase> {
             buf,
             timeout_ms: None,
             shutdown_on_accept: None,
+            builder_order: 0,
         })
     })
 }
@@ -520,6 +532,7 @@ pub fn c15_e2e_strategy(max_reqs: usize) -> impl Strategy<Value = NetCase> {
             buf,
             timeout_ms: None,
             shutdown_on_accept: None,
+            builder_order: 0,
         })
     })
 }
@@ -538,6 +551,7 @@ pub fn c19_strategy(max_reqs: usize) -> impl Strategy<Value = NetCase> {
             buf,
             timeout_ms: Some(timeout),
             shutdown_on_accept: None,
+            builder_order: 0,
         })
     })
 }
@@ -560,6 +574,7 @@ pub fn c09_strategy(max_reqs: usize) -> impl Strategy<Value = NetCase> {
                 buf,
                 timeout_ms: None,
                 shutdown_on_accept: None,
+            builder_order: 0,
             })
     })
 }
@@ -611,7 +626,7 @@ pub fn run(ctx: &Ctx) -> i32 {
     let max_reqs = ctx.tier.pick(8, 24);
     let (rule, mins): (&str, Vec<(&'static str, f64)>) = match prop {
         "C01" => {
-            total.merge(run_generated(ctx, &engine, "concurrent-requests", move || c01_strategy(max_reqs), ctx.cases(30_000, 1_500_000), 300));
+            total.merge(run_generated(ctx, &engine, "concurrent-requests", move || ordered(c01_strategy(max_reqs)), ctx.cases(30_000, 1_500_000), 300));
             // upgrade-heavy leg: half of the requests ask for a protocol upgrade (101 + raw exchange)
             total.merge(run_generated(ctx, &engine, "upgraded-connections", move || c01_strategy_up(max_reqs.min(10), 4), ctx.cases(8_000, 400_000), 300));
             // pool-level leg: every uncancelled request of a fault-free poolsim history must succeed
